@@ -229,6 +229,11 @@ func init() {
 			if !json.Valid([]byte(cs)) {
 				return ex.newErr("json", "invalid JSON input")
 			}
+			if pt0 != nil {
+				if r, handled := ex.jsonIntoFlatStruct(cs, p, pt0.Elem()); handled {
+					return r
+				}
+			}
 		}
 		if !ex.Branch(ex.freshVar("json_ok", BoolSort)) {
 			return ex.newErr("json", "invalid JSON input")
